@@ -103,6 +103,19 @@ func (w *World) c07Packets(full bool) []Pkt {
 	for _, r := range raws {
 		out = append(out, Pkt{SrcPort: "transfer", SrcChan: "channel-7", DstPort: "transfer", DstChan: "channel-0", Raw: []byte(r)})
 	}
+	// (5) size ladder: nothing in the property lets the middleware treat large foreign packets differently (ICS-20 bounds
+	// the memo at 32768 and the receiver at 2048 bytes when SENDING; the receiving side has no bound of its own)
+	for _, L := range []int{255, 256, 1024, 2047, 2048, 2049, 4096, 8192, 16384, 32767, 32768, 32769, 65535, 65536, 65537, 131072, 262144} {
+		long := strings.Repeat("a", L)
+		out = append(out,
+			mk(chs[0], coins[0], w.Bob.String(), long, defaultSender),                          // plain text memo of length L
+			mk(chs[0], coins[0], w.Bob.String(), `{"note":"`+long+`"}`, defaultSender),          // JSON memo of length L+11
+			mk(chs[0], coins[0], w.Bob.String(), `{"orbiter":"`+long+`"}`, defaultSender),       // orbiter-keyed memo, foreign receiver
+			mk(chs[0], coins[0], w.Bob.String()+long, "", defaultSender),                       // receiver of length > L
+			mk(chs[0], coin{"transfer/channel-7/" + long, "1"}, w.Bob.String(), "", defaultSender), // long base denom
+			Pkt{SrcPort: "transfer", SrcChan: "channel-7", DstPort: "transfer", DstChan: "channel-0", Raw: []byte(long)},
+			Pkt{SrcPort: "transfer", SrcChan: "channel-7", DstPort: "transfer", DstChan: "channel-0", Raw: []byte(`{"denom":"` + long + `"}`)})
+	}
 	// protobuf-encoded ICS-20 data
 	pb := transfertypes.FungibleTokenPacketData{Denom: "transfer/channel-7/uusdc", Amount: "10", Sender: defaultSender, Receiver: w.Bob.String()}
 	if bz, err := pb.Marshal(); err == nil {
